@@ -77,7 +77,88 @@ def _cmp_closure(inp, io, mo):
     return None
 
 
+# ------------------------------------------------------------------ the adapter protocol, operation sequences
+def _impl_adapter_ops(inp):
+    """drive a fresh real UserAdapter / TagAdapter through the operation sequence"""
+    import uuid as _uuid
+    from soundevent import data
+    from soundevent.io.aoef.tag import TagAdapter, TagObject
+    from soundevent.io.aoef.user import UserAdapter, UserObject
+    b = aoef.Builder()
+    user = inp["kind"] == "user"
+    ad = UserAdapter() if user else TagAdapter()
+
+    def se(j):       # a *fresh* object each time: sharing must come from the adapter's tables, not from identity
+        if user:
+            return data.User(uuid=_uuid.UUID(j["uuid"]), username=j.get("username"), email=j.get("email"),
+                             name=j.get("name"), institution=j.get("institution"))
+        return b.tag(j)
+
+    def ao(j):
+        return UserObject(**j) if user else TagObject(**j)
+
+    def d_se(x):
+        return None if x is None else (aoef.d_user(x) if user else aoef.d_tag(x))
+
+    def d_ao(o):
+        if o is None:
+            return None
+        if user:
+            return {"uuid": str(o.uuid), "username": o.username, "email": o.email, "name": o.name,
+                    "institution": o.institution}
+        return {"id": o.id, "key": o.key, "value": o.value}
+    out = []
+    for op in inp["ops"]:
+        if op[0] == "to_aoef":
+            out.append(d_ao(ad.to_aoef(se(op[1]))))
+        elif op[0] == "to_se":
+            out.append(d_se(ad.to_soundevent(ao(op[1]))))
+        elif op[0] == "from_id":
+            out.append(d_se(ad.from_id(_uuid.UUID(op[1]) if user else op[1])))
+        elif op[0] == "values":
+            v = ad.values()
+            out.append(None if v is None else [d_ao(o) for o in v])
+        elif op[0] == "get_id":
+            i = ad.get_id(se(op[1]))
+            out.append(str(i) if user else i)
+    return out
+
+
+def _gen_adapter_ops(rng, n):
+    cases = []
+    for _ in range(n):
+        kind = rng.choice(["user", "tag"])
+        g = aoefgen.Gen(rng, size=0.5)
+        if kind == "user":
+            pool = [g.user() for _ in range(rng.randint(1, 4))]
+            # the same uuid with other content: the tables must keep the first one
+            pool += [dict(g.user(), uuid=rng.choice(pool)["uuid"]) for _ in range(rng.randint(0, 2))]
+            ids = [u["uuid"] for u in pool] + [g.uid()]
+            mk_ao = lambda u: dict(u)
+        else:
+            pool = [{"key": rng.choice(["k", "species", ""]), "value": rng.choice(["a", "b", ""])}
+                    for _ in range(rng.randint(1, 5))]
+            ids = list(range(0, 6))
+            mk_ao = lambda t: {"id": rng.choice(ids), "key": t["key"], "value": t["value"]}
+        ops = []
+        mode = rng.choice(["save", "save", "load", "mixed"])
+        for _ in range(rng.randint(1, 14)):
+            r = rng.random()
+            if r < 0.15:
+                ops.append(["values"])
+            elif r < 0.3:
+                ops.append(["from_id", rng.choice(ids)])
+            elif mode == "save" or (mode == "mixed" and r < 0.65):
+                ops.append([rng.choice(["to_aoef", "to_aoef", "get_id"]), copy.deepcopy(rng.choice(pool))])
+            else:
+                ops.append(["to_se", mk_ao(rng.choice(pool))])
+        ops.append(["values"])
+        cases.append({"kind": kind, "ops": ops})
+    return cases
+
+
 OPS = {
+    "adapter_ops": Op("adapter_ops", _impl_adapter_ops, nontrivial=lambda i, o: isinstance(o, list) and len(o) > 2),
     "closure": Op("closure", _impl_closure, to_model=lambda i: {"collection": i["collection"]}, model_op="reach",
                   holds=_holds_closure, compare=_cmp_closure,
                   nontrivial=lambda i, o: "defs" in o and any(o["defs"].values())),
@@ -165,6 +246,8 @@ def _correspondence(ctx):
     ctx.run_cases(OPS["closure"], ot)
     ctx.run_cases(OPS["closure"], _gen_cases(ctx, ctx.rng, ctx.budget(120, 800)))
     ctx.run_cases(OPS["closure"], _gen_cases(ctx, ctx.rng, ctx.budget(6, 30), size=2.5))
+    # adapters.py as a state machine: random operation sequences on the real UserAdapter / TagAdapter
+    ctx.run_cases(OPS["adapter_ops"], _gen_adapter_ops(ctx.rng, ctx.budget(600, 6000)))
 
 
 def run(ctx):
